@@ -174,6 +174,12 @@ def _gen_cases(tier, seed):
             if N >= 2:
                 for _ in range(9):
                     yield C(w="innerprod", shape=list(shp), ka="tensor", kb="tensor", fill="all", fillB="all")
+    # two sparse operands over one set of positions (a model evaluated on the data's entries), each with its own stored order and values;
+    # and two operands with equally many entries whose position sets differ in one / in all positions
+    for N in range(1, 4):
+        for shp in pool[N]:
+            for rel in ("same", "same", "one-differs", "disjoint"):
+                yield C(w="innerprod_pattern", shape=list(shp), rel=rel)
     # sparse operands with thousands of stored entries on both sides (any chunking of the subscript look-up must be invisible)
     for shp in ([21, 20, 21],) if tier == "quick" else ([21, 20, 21], [95, 96], [12, 12, 12, 6]):
         yield C(w="innerprod", shape=list(shp), ka="sptensor", kb="sptensor", fill="half+", fillB="half+")
@@ -473,6 +479,34 @@ def _w_innerprod(case, ctx, rng, shape, N):
     if ok:
         ctx.tag(f"innerprod {case['ka']}x{case['kb']}")
         ctx.check(np.ndim(got) == 0 and close(got, want, scale=scale, tol=TOL), op, "WRONG", f"<X,Y> = {got!r} want {want!r}")
+
+
+def _w_innerprod_pattern(case, ctx, rng, shape, N):
+    size = int(np.prod(shape))
+    rel = case["rel"]
+    n = int(rng.integers(1, max(2, size // (2 if rel == "disjoint" else 1) + 1)))
+    n = min(n, size if rel == "same" else size // 2 if rel == "disjoint" else size - 1)
+    ctx.feat(rel=rel, nnz=("0" if n == 0 else "1" if n == 1 else "2+"))
+    if n < 1:
+        return
+    perm = rng.permutation(size)
+    la = perm[:n]
+    lb = {"same": la, "one-differs": np.concatenate([la[:-1], perm[n:n + 1]]), "disjoint": perm[n:2 * n]}[rel]
+    out = []
+    for lin in (la, lb):
+        lin = lin[rng.permutation(n)]                       # each operand lists its entries in its own order
+        subs = np.stack(np.unravel_index(lin, shape), axis=1)
+        vals = rng.choice([-3.0, -2.0, -1.0, 1.0, 2.0, 3.0, 5.0], size=(n, 1))
+        D = np.zeros(shape)
+        D[tuple(subs.T)] = vals[:, 0]
+        out.append((D, ttb.sptensor(subs.copy(), vals.copy(), shape)))
+    (A, X), (B, Y) = out
+    want = float(np.sum(A * B))
+    got, ok = _try(ctx, "sptensor.innerprod", X.innerprod, Y)
+    if ok:
+        ctx.tag(f"innerprod sparse pair, positions {rel}")
+        ctx.check(np.ndim(got) == 0 and float(got) == want, "sptensor.innerprod", "WRONG",
+                  lambda: f"<X,Y> = {got!r} want {want!r} (integer values; X subs {X.subs.tolist()} vals {X.vals.ravel().tolist()}; Y subs {Y.subs.tolist()} vals {Y.vals.ravel().tolist()})")
 
 
 def _w_norm(case, ctx, rng, shape, N):
